@@ -57,7 +57,7 @@ fn deserialize_block<R: BufRead + Seek>(
                 Len::Len(n) => arr.len() < n as usize,
                 Len::Indefinite => true,
             } {
-                if is_break_tag(raw, "Block.invalid_transactions")? {
+                if is_break_tag(raw, &len, "Block.invalid_transactions")? {
                     break;
                 }
                 arr.push(TransactionIndex::deserialize(raw)?);
